@@ -488,22 +488,22 @@ type marshalCase struct {
 	Vec  []int  `json:"vec"`
 }
 type marshalLine struct {
-	Ev      string    `json:"ev"`
-	ID      int       `json:"id"`
-	Type    string    `json:"type"`
-	Vec     []int     `json:"vec"`
-	Used    int       `json:"used"`
-	Value   []mField  `json:"value"`
-	MOK     bool      `json:"mok"`
-	MErr    string    `json:"merr"`
-	AVPs    []abs.AVP `json:"avps"`
-	HLen    int       `json:"hlen"`
-	SLen    int       `json:"slen"`
-	UOK     bool      `json:"uok"`
-	Back    []mField  `json:"back"`
-	WOK     bool      `json:"wok"`
-	Back2   []mField  `json:"back2"`
-	UErr    string    `json:"uerr"`
+	Ev    string    `json:"ev"`
+	ID    int       `json:"id"`
+	Type  string    `json:"type"`
+	Vec   []int     `json:"vec"`
+	Used  int       `json:"used"`
+	Value []mField  `json:"value"`
+	MOK   bool      `json:"mok"`
+	MErr  string    `json:"merr"`
+	AVPs  []abs.AVP `json:"avps"`
+	HLen  int       `json:"hlen"`
+	SLen  int       `json:"slen"`
+	UOK   bool      `json:"uok"`
+	Back  []mField  `json:"back"`
+	WOK   bool      `json:"wok"`
+	Back2 []mField  `json:"back2"`
+	UErr  string    `json:"uerr"`
 }
 
 func runMarshal(id int, c *marshalCase, ch *chooser, dp *dict.Parser) marshalLine {
